@@ -44,7 +44,9 @@ def table(job):
             # list.py, range.py ... next to the script): nothing imports them
             d = os.path.join(scratch, "cwd_like")
             os.makedirs(d)
-            for n in ("str", "len", "list", "range", "sorted", "dict", "set", "print", "filter", "format", "type", "input"):
+            for n in ("str", "len", "list", "range", "sorted", "dict", "set", "print", "filter", "format", "type", "input",
+                      # ... or with a name the programs only use for a lambda / nested-def parameter, an 'except ... as' target, a loop variable
+                      "row", "err", "q", "_k"):
                 open(os.path.join(d, n + ".py"), "w").write("IMPORTED_BY_ACCIDENT = True\n")
             sys.path.insert(0, d)
         w = World(scratch)
